@@ -36,8 +36,66 @@ def shape_cases(seed, tier):
             yield {"kind": "history", "net": name, "bnet": bnet, "config": {}, "history": pre + [final]}
 
 
+def limit_cases(seed, tier):
+    """(limited): several independent bistable modules x 'limited prefix, then a stack-limited dfs / a size-limited attractor-seed expansion' as history cases."""
+    fixed = families.limited_dfs_histories() + families.limited_aseeds_histories()
+    for k, (name, bnet) in enumerate(families.interleave((families.limit_nets(seed, tier), 1), (families.deep_nets(seed, tier), 1))):
+        names = families.variables(bnet)
+        if name in families.LIMIT_NETS:
+            picks = fixed
+        else:
+            rng = random.Random(f"{seed}-{name}-c15-limited")
+            picks = [fixed[(k * 11 + j * 37) % len(fixed)] for j in range(3)] + [families.random_limited_history(rng, names)]
+        for pre, final in picks:
+            yield {"kind": "history", "net": name, "bnet": bnet, "config": {}, "history": pre + [final]}
+
+
+TIGHT_OPS = {"block": ["block", True, None, True, False], "build": ["build"], "block_nosrc": ["block", True, None, False, False], "block_exact": ["block", True, None, True, True]}
+TIGHT_NETS = {
+    "maa_core": families.MAA_CORE,
+    "xnor": families.XNOR2,
+    "maa_core+switch": families.HAND["maa_switch"],
+    "maa_core+xnor": families.union(families.MAA_CORE, families.XNOR2),
+    "xnor+switch": families.union(families.XNOR2, families.switch()),
+    "switch_pair": families.norm("P, Q; Q, P; R, S | P; S, R"),  # no motif-avoidant attractor at all
+    "maa_latch": families.HAND["maa_latch"],
+    "maa_source": families.HAND["maa_source"],
+    "maa_gated": families.HAND["maa_gated"],
+    "maa_double": families.HAND["maa_double"],
+}
+
+
+def tight_nets(seed, tier):
+    """Motif-avoidant networks: the fixed ones above, then the block-structured and input-conditioned families."""
+    for k, v in TIGHT_NETS.items():
+        yield (k, v)
+    yield from families.interleave((families.block_nets(seed, tier), 1), (families.same_motif_cond_nets(seed, tier), 1), (iter(families.maa_nets()), 1))
+
+
+def tight_cases(seed, tier):
+    """(tight): block expansion / build under small attractor_candidates_limit x retained_set_optimization_threshold, then the limits are lifted."""
+    seen = set()
+    for name, bnet in tight_nets(seed, tier):
+        if bnet in seen or len(families.variables(bnet)) > 8:
+            continue
+        seen.add(bnet)
+        if name in TIGHT_NETS:
+            grid = [({"attractor_candidates_limit": lim, "retained_set_optimization_threshold": thr}, op) for lim in (1, 2, 3, 4, 6) for thr in (1, 2, 0, 1000) for op in ("block", "build")]
+            grid += [({"attractor_candidates_limit": lim, "retained_set_optimization_threshold": thr}, op) for lim in (1, 2, 3) for thr in (1, 1000) for op in ("block_nosrc", "block_exact")]
+        else:
+            rng = random.Random(f"{seed}-{name}-c15-tight")
+            grid = [({"attractor_candidates_limit": lim, "retained_set_optimization_threshold": rng.choice([0, 1, 2, 3, 1000])}, rng.choice(["block", "block", "build", "block_nosrc", "block_exact"]))
+                    for lim in (1, 2, rng.choice([3, 4, 6]))]
+            cfg = families.config_variant(rng)
+            cfg.pop("max_motifs_per_node", None)  # a motif limit truncates the diagram (property C14); here only the attractor-search limits vary
+            cfg.setdefault("attractor_candidates_limit", rng.choice([1, 2, 3]))
+            grid.append((cfg, rng.choice(["block", "build"])))
+        for cfg, op in grid:
+            yield {"kind": "tight", "net": name, "bnet": bnet, "config": cfg, "op": op}
+
+
 def cases(seed, tier):
-    yield from families.interleave((shape_cases(seed, tier), 1), (general_cases(seed, tier), 4))
+    yield from families.interleave((shape_cases(seed, tier), 1), (limit_cases(seed, tier), 1), (tight_cases(seed, tier), 1), (general_cases(seed, tier), 4))
 
 
 def general_cases(seed, tier):
@@ -215,6 +273,57 @@ def check_resume(case, net, info):
     return out
 
 
+def check_tight(case, net, info):
+    """Block expansion / build under tight attractor-search limits; then the limits are lifted and everything is compared with brute force."""
+    out = []
+    cfg = case["config"]
+    step = TIGHT_OPS[case["op"]]
+    sd = make_sd(case["bnet"], cfg)
+
+    def cached_ok(label):
+        fs = check_structure(sd, net, plain=False)
+        for i in sd.node_ids():
+            fs += check_cache(sd, net, i, prefix="after_stop_")
+        for f in fs:
+            f["detail"] = f"{label} under {cfg}: " + f["detail"]
+        return fs
+
+    sd, r = run_step(sd, step)
+    if isinstance(r, dict) or r is False:
+        info["early_stops"] += 1
+    out += cached_ok(f"after {step} -> {r}")
+    if out:
+        return out
+    # attractor queries under the tight limits (each may raise the limit error); whatever is cached afterwards must be correct
+    for i in list(sd.expanded_ids()):
+        sd, q = run_step(sd, ["seeds", i, False])
+        if isinstance(q, dict):
+            info["early_stops"] += 1
+    out += cached_ok(f"after {step} -> {r} and an attractor query in every expanded node")
+    if out:
+        return out
+    # lift the limits, repeat
+    sd.config.update({k: v for k, v in families_defaults().items()})
+    sd, r2 = run_step(sd, step)
+    if not (r2 is True or (case["op"] == "build" and r2 is None)):  # build() returns nothing; it completes unless it raises
+        out.append(fail("resume_incomplete", "the repeated run with relaxed limits completes", f"{step} after {cfg}", observed=r2, expected=True))
+        return out
+    triples = all_seeds(sd, net)
+    for i in sd.expanded_ids():
+        out += check_cache(sd, net, i, what=("seeds",), prefix="after_relax_")
+    out += check_global_seeds(sd, net, triples, exactly_once=True, lost_kind="attractor_lost_after_limits", dup_kind="attractor_twice_after_limits")
+    for f in out:
+        f["detail"] = f"{step} under {cfg} -> {r}, then with default limits -> {r2}: " + f["detail"]
+    return out
+
+
+def families_defaults():
+    from biobalm import SuccessionDiagram
+
+    d = SuccessionDiagram.default_config()
+    return {k: d[k] for k in ("max_motifs_per_node", "attractor_candidates_limit", "retained_set_optimization_threshold", "minimum_simulation_budget", "nfvs_size_threshold") if k in d}
+
+
 def check_fault(case, net, info):
     """Solver failure (clingo solve raising) at the k-th solver call: the diagram must stay valid and resumable."""
     import biobalm.trappist_core as tc
@@ -267,7 +376,7 @@ def check_with_info(case):
     net = oracle.Net.from_bnet(case["bnet"])
     info = net_info(net)
     info["early_stops"] = 0
-    fn = {"history": check_history, "resume": check_resume, "full_then_limit": check_full_then_limit, "fault": check_fault}[case["kind"]]
+    fn = {"history": check_history, "resume": check_resume, "full_then_limit": check_full_then_limit, "fault": check_fault, "tight": check_tight}[case["kind"]]
     return fn(case, net, info), info
 
 
